@@ -185,8 +185,26 @@ def main(argv=None):
         return run_property(mod, pid, tier, seed, args, t0)
     except SystemExit:
         raise
-    except Exception:  # noqa: BLE001
+    except Exception as exc:  # noqa: BLE001
         traceback.print_exc()
+        # An exception that escapes while the check builds its inputs or runs its jobs: if it was raised INSIDE the code under check
+        # (innermost frame in the repository), the library failed on an input every check of the unchanged tree handles - that is a
+        # violation found without a structured failing input, not a fault of the harness.  Anything else stays a harness error.
+        import pymbolic
+        repo_root = os.path.dirname(os.path.dirname(os.path.abspath(pymbolic.__file__)))
+        frames = traceback.extract_tb(exc.__traceback__)
+        inner = frames[-1].filename if frames else ""
+        if os.path.abspath(inner).startswith(os.path.join(repo_root, "pymbolic")):
+            out = os.environ.get("VERIF_OUT") or ROOT
+            os.makedirs(os.path.join(out, "replays"), exist_ok=True)
+            h = hashlib.sha1((type(exc).__name__ + inner + str(frames[-1].lineno)).encode()).hexdigest()[:8]
+            path = os.path.join(out, "replays", f"{pid}-library-raised-during-check-{h}.json")
+            json.dump(dict(property=pid, obligation="the code under check raised while the check was preparing or running its inputs",
+                           detail=f"{type(exc).__name__}: {exc}", location=f"{inner}:{frames[-1].lineno} in {frames[-1].name}",
+                           solver_output="".join(traceback.format_exception(type(exc), exc, exc.__traceback__))[-4000:], cases=[], witnesses=[]),
+                      open(path, "w"), indent=1)
+            print(f"VIOLATION property={pid} replay={path} no-failing-input-found")
+            return 1
         print(f"HARNESS-ERROR property={pid}")
         return 3
 
